@@ -27,6 +27,10 @@ FnEq(f, ps) == /\ DOMAIN f = {ps[i][1] : i \in DOMAIN ps}
 Bad(r, e) ==
     LET v == DViews(r.st) IN
     IF r.out # e.out THEN "outcome"
+    \* an event after which the caller did not look at the library (no view was read): only the outcome is recorded; the
+    \* state moves on in the model and the next observed event is compared with it (a view computed lazily must not depend on
+    \* WHEN it was last looked at)
+    ELSE IF "quiet" \in DOMAIN e /\ e.quiet THEN ""
     ELSE IF v.blocks # e.v.blocks THEN "blocks"
     ELSE IF v.entries # e.v.entries THEN "entries"
     ELSE IF ~FnEq(v.entries_dict, e.v.entries_dict) THEN "entries_dict"
